@@ -242,6 +242,9 @@ def run(chk, db):
     facts.gate(chk, db, ['nop/utility/buffer_', 'nop/utility/pedantic_', 'nop/utility/constexpr_', 'nop/utility/stream_',
                          'nop/utility/fd_'])
     rules(chk, db)
+    from .. import witness
+    witness.run(chk, 'c03_bytes.cpp', 'WB', 'compile-time witnesses: bytes produced by constexpr serialisation equal the documented bytes '
+                '(which the run-time writers produce by C03)', minimum=25)
     chk.explanation = (
         'Every primitive of the 5 buffer-family classes, 2 stream classes and 2 fd classes is summarised symbolically (all paths) and '
         'compared with the single specification of its role; ConstexprBufferWriter byte lanes are compared with the little-endian '
